@@ -23,6 +23,8 @@ const (
 func checkC11(c *Ctx) {
 	c.R.NotCover = append(c.R.NotCover, "absence of all side effects for all byte streams (log output, allocations, the process-wide packet-id counter)", "panics on malformed CONNECT bytes (C04/C05)")
 	c.useRules(ruleP11, ruleP2, ruleP8, ruleP6, ruleP5)
+	c.useRules(ruleP6)
+	c.connackCodeReachesAccept()
 	r := c.Roles()
 	if !c.Need("accept function (Server method calling Authenticate)", r.Accept, "start", r.Start, "socket writer", r.SockWrite) {
 		return
